@@ -130,7 +130,11 @@ theorem tryAdd_measure {k : Cfg} {L : List Nat} {s : St} {p : Nat} {el : Int} (h
     · obtain ⟨a, b, c⟩ := one_thread (s' := refuse s p .full) (x := ⟨.done .full, (s.ps p).el, false, (s.ps p).canc⟩) hc hni rfl h5
         (b := 0) (by simp [phi]) h3 (d := 0) (by simp [omg])
       exact ⟨a, by simp only [Phi, refuse] at b ⊢; omega, by simp only [Omega, refuse] at c ⊢; omega⟩
-  · have ht : (s.cwoken ++ s.cwait.take 1).length ≤ s.cwoken.length + 1 := by
+  · split
+    · obtain ⟨a, b, c⟩ := one_thread (s' := refuse s p .stopped) (x := ⟨.done .stopped, (s.ps p).el, false, (s.ps p).canc⟩) hc hni rfl h5
+        (b := 0) (by simp [phi]) h3 (d := 0) (by simp [omg])
+      exact ⟨a, by simp only [Phi, refuse] at b ⊢; omega, by simp only [Omega, refuse] at c ⊢; omega⟩
+    have ht : (s.cwoken ++ s.cwait.take 1).length ≤ s.cwoken.length + 1 := by
       simp only [List.length_append, List.length_take]; omega
     cases hw : k.wfr with
     | true =>
@@ -262,7 +266,7 @@ theorem tryAdd_ps_other (k : Cfg) (s : St) (p q : Nat) (el : Int) (h : q ≠ p) 
   unfold tryAdd register refuse accept
   split
   · split <;> simp [upd_other _ _ _ _ h]
-  · simp [upd_other _ _ _ _ h]
+  · split <;> simp [upd_other _ _ _ _ h]
 
 /-- a thread that has not called Offer stays idle under every label except its own `offer` -/
 theorem idle_step {k : Cfg} {s s' : St} {l : Label} (hf : fire k s l = some s') (q : Nat) (hq : (s.ps q).ph = .idle)
@@ -512,7 +516,9 @@ theorem tryAdd_accepted_mono (k : Cfg) (s : St) (p : Nat) (el : Int) : ∀ q ∈
   unfold tryAdd register refuse accept
   split
   · split <;> exact hq
-  · simp [hq]
+  · split
+    · exact hq
+    · simp [hq]
 
 theorem tryAdd_canc (k : Cfg) (s : St) (p q : Nat) (el : Int) : ((tryAdd k s p el).ps q).canc = (s.ps q).canc := by
   by_cases h : q = p
@@ -520,8 +526,79 @@ theorem tryAdd_canc (k : Cfg) (s : St) (p q : Nat) (el : Int) : ((tryAdd k s p e
     unfold tryAdd register refuse accept
     split
     · split <;> simp
-    · simp
+    · split <;> simp
   · rw [tryAdd_ps_other _ _ _ _ _ h]
+
+theorem tryAdd_stopped (k : Cfg) (s : St) (p : Nat) (el : Int) : (tryAdd k s p el).stopped = s.stopped := by
+  unfold tryAdd register refuse accept
+  split
+  · split <;> rfl
+  · split <;> rfl
+
+/-- only `Shutdown` changes `stopped` -/
+theorem stopped_step {k : Cfg} {s s' : St} {l : Label} (hf : fire k s l = some s') (hl : l ≠ .shutdown) :
+    s'.stopped = s.stopped := by
+  cases l with
+  | shutdown => exact absurd rfl hl
+  | offer p el =>
+    simp only [fire] at hf
+    split at hf
+    · split at hf
+      · cases hf; rfl
+      · split at hf
+        · cases hf; rfl
+        · split at hf
+          · cases hf; rfl
+          · cases hf; exact tryAdd_stopped _ _ _ _
+    · cases hf
+  | cancel p => simp only [fire] at hf; cases hf; rfl
+  | wakeTok p => simp only [fire] at hf; split at hf <;> cases hf; rfl
+  | wakeCtx p => simp only [fire] at hf; split at hf <;> cases hf; rfl
+  | relockTok p => simp only [fire] at hf; split at hf <;> cases hf; exact tryAdd_stopped _ _ _ _
+  | relockCtx p =>
+    simp only [fire] at hf
+    split at hf
+    · cases hf
+      simp only [refuse]
+      unfold ctxCleanup
+      split
+      · rfl
+      · exact (condSignal_fields s).2.2.2.1
+    · cases hf
+  | getRes p =>
+    simp only [fire] at hf
+    split at hf
+    · split at hf <;> cases hf; rfl
+    · cases hf
+  | resCtx p => simp only [fire] at hf; split at hf <;> cases hf; rfl
+  | read c =>
+    simp only [fire] at hf
+    split at hf
+    · cases hf
+    · split at hf
+      · rename_i s1 hp; cases hf
+        obtain ⟨id, el, t, _, rfl⟩ := pop_some hp
+        rfl
+      · split at hf <;> cases hf <;> rfl
+  | recheck c =>
+    simp only [fire] at hf
+    split at hf
+    · split at hf
+      · rename_i s1 hp; cases hf
+        obtain ⟨id, el, t, _, rfl⟩ := pop_some hp
+        rfl
+      · split at hf <;> cases hf <;> rfl
+    · cases hf
+  | complete id e =>
+    simp only [fire] at hf
+    split at hf
+    · cases hf
+      unfold finish
+      simp only []
+      split
+      · exact (condSignal_fields _).2.2.2.1
+      · exact (condSignal_fields _).2.2.2.1
+    · cases hf
 
 /-- frame: a label changes phase and cancellation flag only of its own thread; `accepted` only grows -/
 theorem frame_step {k : Cfg} {s s' : St} {l : Label} (hf : fire k s l = some s') :
@@ -630,7 +707,7 @@ def Label.drain : Label → Bool
 
 /-- a producer waiting for space whose context has not ended, or already enqueued -/
 def Tracked (s : St) (p : Nat) : Prop :=
-  (((s.ps p).ph = .sel ∨ (s.ps p).ph = .wokenTok) ∧ (s.ps p).canc = false) ∨ p ∈ s.accepted
+  (((s.ps p).ph = .sel ∨ (s.ps p).ph = .wokenTok) ∧ (s.ps p).canc = false ∧ s.stopped = false) ∨ p ∈ s.accepted
 
 theorem tracked_step {k : Cfg} {s s' : St} {l : Label} {p : Nat} (hC : InvC k s) (hl : l.drain = true)
     (hf : fire k s l = some s') (ht : Tracked s p) : Tracked s' p := by
@@ -638,11 +715,13 @@ theorem tracked_step {k : Cfg} {s s' : St} {l : Label} {p : Nat} (hC : InvC k s)
   cases ht with
   | inr hacc => exact Or.inr (hmono p hacc)
   | inl hh =>
-  obtain ⟨hph, hcn⟩ := hh
+  obtain ⟨hph, hcn, hrun⟩ := hh
+  have hnsd : l ≠ .shutdown := by intro e; subst e; simp [Label.drain] at hl
+  have hrun' : s'.stopped = false := by rw [stopped_step hf hnsd]; exact hrun
   have hother : l.tid ≠ some p → Tracked s' p := by
     intro htid
     obtain ⟨e1, e2⟩ := hframe p htid
-    exact Or.inl ⟨by rw [e1]; exact hph, by rw [e2]; exact hcn⟩
+    exact Or.inl ⟨by rw [e1]; exact hph, by rw [e2]; exact hcn, hrun'⟩
   cases Classical.em (l.tid = some p) with
   | inr htid => exact hother htid
   | inl htid =>
@@ -657,7 +736,7 @@ theorem tracked_step {k : Cfg} {s s' : St} {l : Label} {p : Nat} (hC : InvC k s)
     simp only [Label.tid, Option.some.injEq] at htid; subst htid
     simp only [fire] at hf
     split at hf
-    · cases hf; exact Or.inl ⟨by simp [setP], by simpa [setP] using hcn⟩
+    · cases hf; exact Or.inl ⟨by simp [setP], by simpa [setP] using hcn, hrun⟩
     · cases hf
   | wakeCtx q =>
     simp only [Label.tid, Option.some.injEq] at htid; subst htid
@@ -673,8 +752,9 @@ theorem tracked_step {k : Cfg} {s s' : St} {l : Label} {p : Nat} (hC : InvC k s)
       have hb := (hC.elOk q (Or.inr (Or.inl h))).2.2
       unfold tryAdd
       split
-      · exact Or.inl ⟨by simp [register], by simpa [register] using hcn⟩
-      · exact Or.inr (by simp [accept])
+      · exact Or.inl ⟨by simp [register], by simpa [register] using hcn, hrun⟩
+      · simp only [hrun, Bool.false_eq_true, if_false]
+        exact Or.inr (by simp [accept])
     · cases hf
   | relockCtx q =>
     simp only [Label.tid, Option.some.injEq] at htid; subst htid
